@@ -30,6 +30,9 @@ where
 }
 
 pub open spec fn ACK_BYTES() -> Seq<u8> { seq![0x80u8, 0x00u8, 0x00u8] }
+// every module-level constant of the two files, so that a (changed) body may name a new one
+//@ items src:zvt/src/sequences.rs | consts maybe-none
+//@ items src:zvt/src/feig/sequences.rs | consts maybe-none
 
 /// offset of the j-th packet boundary in the byte stream `b`
 pub open spec fn off(b: Seq<u8>, j: nat) -> int
